@@ -10,6 +10,7 @@ import (
 	"path/filepath"
 	"sort"
 	"strings"
+	"time"
 
 	"github.com/jdillenkofer/pithos/internal/storage"
 	"github.com/jdillenkofer/pithos/internal/storage/middlewares/conditional"
@@ -23,11 +24,14 @@ import (
 // some mapped to a storage, the rest falling to the default. Trace (driver: lean/Driver/C24.lean):
 //
 //	cfg n=<storages> map=<b>:<idx>,… default=<idx>
-//	op <name> <args…>           s3hist op lines + "op uppc …" + "op dels …"
+//	op <name> <args…>           s3hist op lines + "op uppc …" + "op dels …"; "op cp …" and "op uppc …" may
+//	                            carry copy-source preconditions cim= cinm= (~|*|src|other) and
+//	                            cims= cius= (ms relative to the source's Last-Modified second)
 //	res ok … | res err <Kind> | res panic <hex>
 //	calls <idx>:<Method>:<bucket>[><bucket>] …   every call a backing storage received, in order
 //	back <idx> <names,…|~>      (after "op lsb") ListBuckets of backing storage idx, asked directly
-//	xcopy dst <fields> / xcopy twin <fields>     after a successful cross-storage CopyObject: the
+//	xcopy dst <fields> / xcopy twin <fields>     after a cross-storage CopyObject that succeeded or
+//	                            failed on the source side (then `err=<Kind>`): the
 //	                            destination object, and the result of the SAME copy executed inside
 //	                            the source's storage (into a scratch bucket, removed afterwards)
 //	xpart dst <fields> / xpart twin <fields>     likewise for a cross-storage UploadPartCopy
@@ -56,10 +60,86 @@ func c24BN(b string) storage.BucketName { return storage.MustNewBucketName("bkt-
 // ---------------------------------------------------------------- extra ops (as in c23.go; kept
 // separate so that each property's harness builds on its own)
 
-func (x *c24Case) partCopyOpts(a map[string]string) *storage.UploadPartCopyOptions {
+// copyConds builds the copy-source preconditions of a copy line:
+//
+//	cim=|cinm= ~ | * | src (the source object's ETag) | other
+//	cims=|cius= ~ | <signed milliseconds relative to the source's Last-Modified truncated to the second>
+//
+// The source is looked at directly on its backing storage (not through the middleware).
+func (x *c24Case) copyConds(t []string, a map[string]string) storage.CopySourceConditions {
+	var cc storage.CopySourceConditions
+	if a["cim"] == "" && a["cinm"] == "" && a["cims"] == "" && a["cius"] == "" {
+		return cc
+	}
+	c := x.s3hCase
+	base := time.Now().Truncate(time.Second)
+	etag := "\"ffffffffffffffffffffffffffffffff\""
+	src := x.stacks[x.storageOf(t[2])].Storage
+	if obj, err := src.HeadObject(c.ctx, c24BN(t[2]), storage.MustNewObjectKey(t[3]), &storage.HeadObjectOptions{VersionID: parseVidArg(c, a["svid"])}); err == nil {
+		base = obj.LastModified.Truncate(time.Second)
+		etag = obj.ETag
+	}
+	tag := func(v string) *string {
+		switch v {
+		case "", "~":
+			return nil
+		case "*":
+			s := storage.ETagWildcard
+			return &s
+		case "src":
+			s := etag
+			return &s
+		}
+		s := "\"00000000000000000000000000000000\""
+		return &s
+	}
+	at := func(v string) *time.Time {
+		if v == "" || v == "~" {
+			return nil
+		}
+		var ms int64
+		fmt.Sscanf(v, "%d", &ms)
+		ts := base.Add(time.Duration(ms) * time.Millisecond)
+		return &ts
+	}
+	cc.IfMatch, cc.IfNoneMatch = tag(a["cim"]), tag(a["cinm"])
+	cc.IfModifiedSince, cc.IfUnmodifiedSince = at(a["cims"]), at(a["cius"])
+	return cc
+}
+
+func (x *c24Case) copyOpts(t []string, a map[string]string) *storage.CopyObjectOptions {
+	c := x.s3hCase
+	return &storage.CopyObjectOptions{SourceVersionID: parseVidArg(c, a["svid"]), ReplaceMetadata: a["mdir"] == "R",
+		ReplaceTags: a["tdir"] == "R", ContentType: decS(a["ct"]), Metadata: decMeta(a["md"]), Tags: decPairs(a["tags"]),
+		StorageClass: decS(a["cls"]), CopySourceConditions: x.copyConds(t, a)}
+}
+
+// op cp <sb> <sk> <db> <dk> svid= mdir= tdir= ct= md= tags= cls= [cim= cinm= cims= cius=]
+// (the s3hist "cp" line, plus copy-source preconditions). Returns "ok" or the error kind.
+func (x *c24Case) execCopy(line string, t []string) string {
+	c := x.s3hCase
+	c.out.Line("%s", line)
+	res, err := c.st.CopyObject(c.ctx, c24BN(t[2]), storage.MustNewObjectKey(t[3]), c24BN(t[4]), storage.MustNewObjectKey(t[5]), x.copyOpts(t, kv(t)))
+	c.learnVids()
+	if err != nil {
+		c.resErr(err)
+		return errKind(err)
+	}
+	c.noteEtag(t[4], t[5], res.ETag, -1)
+	c.out.Line("res ok vid=%s etag=%s", c.vidOut(res.VersionID), res.ETag)
+	return "ok"
+}
+
+func (x *c24Case) partCopyOpts(t []string, a map[string]string) *storage.UploadPartCopyOptions {
 	var o *storage.UploadPartCopyOptions
+	if cc := x.copyConds(t, a); cc != (storage.CopySourceConditions{}) {
+		o = &storage.UploadPartCopyOptions{CopySourceConditions: cc}
+	}
 	if vid := parseVidArg(x.s3hCase, a["svid"]); vid != nil {
-		o = &storage.UploadPartCopyOptions{SourceVersionID: vid}
+		if o == nil {
+			o = &storage.UploadPartCopyOptions{}
+		}
+		o.SourceVersionID = vid
 	}
 	if r := a["range"]; r != "~" && r != "" {
 		var s, e int64
@@ -72,18 +152,19 @@ func (x *c24Case) partCopyOpts(a map[string]string) *storage.UploadPartCopyOptio
 	return o
 }
 
-// op uppc <sb> <sk> <db> <dk> <u> <n> svid=<v> range=<a>-<b>|~
-func (x *c24Case) execPartCopy(line string, t []string) bool {
+// op uppc <sb> <sk> <db> <dk> <u> <n> svid=<v> range=<a>-<b>|~ [cim= cinm= cims= cius=]
+// Returns "ok" or the error kind.
+func (x *c24Case) execPartCopy(line string, t []string) string {
 	c := x.s3hCase
 	c.out.Line("%s", line)
 	res, err := c.st.UploadPartCopy(c.ctx, c24BN(t[2]), storage.MustNewObjectKey(t[3]), c24BN(t[4]), storage.MustNewObjectKey(t[5]),
-		c.uid(t[6]), atoi32(t[7]), x.partCopyOpts(kv(t)))
+		c.uid(t[6]), atoi32(t[7]), x.partCopyOpts(t, kv(t)))
 	if err != nil {
 		c.resErr(err)
-		return false
+		return errKind(err)
 	}
 	c.out.Line("res ok etag=%s", res.ETag)
-	return true
+	return "ok"
 }
 
 // op dels <b> <k1,k2,…|~>      → res ok <key>:<deleted 0|1>:<delete-marker 0|1>,…
@@ -134,14 +215,17 @@ var c24Twin = storage.MustNewBucketName("bkt-twin")
 // twinCopy repeats a cross-storage CopyObject inside the source's own storage (directly on the
 // backing stack, not through the middleware) into a scratch bucket, reads the result, and removes
 // the scratch bucket again.
-func (x *c24Case) twinCopy(t []string) {
+// outcome is what the cross-storage copy answered: "ok", or a source-side error kind (then only
+// the outcomes are compared).
+func (x *c24Case) twinCopy(t []string, outcome string) {
 	c := x.s3hCase
-	a := kv(t)
 	src, dst := x.stacks[x.storageOf(t[2])].Storage, x.stacks[x.storageOf(t[4])].Storage
-	c.out.Line("xcopy dst %s", c24ObjFields(c.ctx, dst, c24BN(t[4]), storage.MustNewObjectKey(t[5])))
-	o := &storage.CopyObjectOptions{SourceVersionID: parseVidArg(c, a["svid"]), ReplaceMetadata: a["mdir"] == "R",
-		ReplaceTags: a["tdir"] == "R", ContentType: decS(a["ct"]), Metadata: decMeta(a["md"]), Tags: decPairs(a["tags"]),
-		StorageClass: decS(a["cls"])}
+	if outcome == "ok" {
+		c.out.Line("xcopy dst %s", c24ObjFields(c.ctx, dst, c24BN(t[4]), storage.MustNewObjectKey(t[5])))
+	} else {
+		c.out.Line("xcopy dst err=%s", outcome)
+	}
+	o := x.copyOpts(t, kv(t))
 	verifx.Check(src.CreateBucket(c.ctx, c24Twin))
 	tk := storage.MustNewObjectKey(t[5])
 	if _, err := src.CopyObject(c.ctx, c24BN(t[2]), storage.MustNewObjectKey(t[3]), c24Twin, tk, o); err != nil {
@@ -168,16 +252,20 @@ func c24PartFields(ctx context.Context, st storage.Storage, b storage.BucketName
 }
 
 // twinPartCopy repeats a cross-storage UploadPartCopy inside the source's own storage.
-func (x *c24Case) twinPartCopy(t []string) {
+func (x *c24Case) twinPartCopy(t []string, outcome string) {
 	c := x.s3hCase
 	src, dst := x.stacks[x.storageOf(t[2])].Storage, x.stacks[x.storageOf(t[4])].Storage
 	n := atoi32(t[7])
 	dk := storage.MustNewObjectKey(t[5])
-	c.out.Line("xpart dst %s", c24PartFields(c.ctx, dst, c24BN(t[4]), dk, c.uid(t[6]), n))
+	if outcome == "ok" {
+		c.out.Line("xpart dst %s", c24PartFields(c.ctx, dst, c24BN(t[4]), dk, c.uid(t[6]), n))
+	} else {
+		c.out.Line("xpart dst err=%s", outcome)
+	}
 	verifx.Check(src.CreateBucket(c.ctx, c24Twin))
 	up, err := src.CreateMultipartUpload(c.ctx, c24Twin, dk, nil, nil, nil)
 	verifx.Check(err)
-	if _, err := src.UploadPartCopy(c.ctx, c24BN(t[2]), storage.MustNewObjectKey(t[3]), c24Twin, dk, up.UploadId, n, x.partCopyOpts(kv(t))); err != nil {
+	if _, err := src.UploadPartCopy(c.ctx, c24BN(t[2]), storage.MustNewObjectKey(t[3]), c24Twin, dk, up.UploadId, n, x.partCopyOpts(t, kv(t))); err != nil {
 		c.out.Line("xpart twin err=%s", errKind(err))
 	} else {
 		c.out.Line("xpart twin %s", c24PartFields(c.ctx, src, c24Twin, dk, up.UploadId, n))
@@ -192,7 +280,7 @@ func (x *c24Case) step(line string) {
 	c := x.s3hCase
 	t := strings.Fields(line)
 	x.log = x.log[:0]
-	okCopy, okPart := false, false
+	copyOut, partOut := "", ""
 	func() {
 		defer func() {
 			if p := recover(); p != nil {
@@ -201,13 +289,11 @@ func (x *c24Case) step(line string) {
 		}()
 		switch t[1] {
 		case "uppc":
-			okPart = x.execPartCopy(line, t)
+			partOut = x.execPartCopy(line, t)
 		case "dels":
 			x.execDeleteObjects(line, t)
 		case "cp":
-			before := len(c.allEtags)
-			c.exec(line)
-			okCopy = len(c.allEtags) > before // exec notes the destination ETag only on success
+			copyOut = x.execCopy(line, t)
 		default:
 			c.exec(line)
 		}
@@ -225,10 +311,14 @@ func (x *c24Case) step(line string) {
 			sort.Strings(names)
 			c.out.Line("back %d %s", i, joinOr(names))
 		}
-	case okCopy && x.storageOf(t[2]) != x.storageOf(t[4]):
-		x.twinCopy(t)
-	case okPart && x.storageOf(t[2]) != x.storageOf(t[4]):
-		x.twinPartCopy(t)
+	// a cross-storage copy that succeeded, or failed for a reason that lies with the SOURCE (which
+	// the twin shares; destination-side errors cannot be compared with a copy into another bucket)
+	case (copyOut == "ok" || copyOut == "PreconditionFailed" || copyOut == "NoSuchKey" || copyOut == "MethodNotAllowed") &&
+		x.storageOf(t[2]) != x.storageOf(t[4]):
+		x.twinCopy(t, copyOut)
+	case (partOut == "ok" || partOut == "PreconditionFailed" || partOut == "InvalidRange" || partOut == "MethodNotAllowed") &&
+		x.storageOf(t[2]) != x.storageOf(t[4]):
+		x.twinPartCopy(t, partOut)
 	}
 }
 
